@@ -126,6 +126,7 @@ class Long(object):
 DECOY_VARS = [('va', enc(999)), ('vb', enc('zz')), ('nosuch', enc(1)), ('vl', enc([9])), ('NULL', enc(4))]
 DECOY_FUNCS = [('K', {'mode': 'const', 'v': enc(1000), 'i': 0}), ('NOSUCHFN', {'mode': 'const', 'v': enc(5), 'i': 0}),
                ('ABS', {'mode': 'const', 'v': enc(-1), 'i': 0})]
+STAMINA = [4000]
 TRANSIENT = {'cellexc': ['cell:*'], 'rangeexc': ['range:*'], 'fnlistenerexc': ['fn:K']}
 BASE_RAISES = ['var:vraise']
 
@@ -160,6 +161,14 @@ def replay_history(lib, tid, kinds, debug):
             REBIND[k](L, step)
             for f in (KIND['ok'], KIND['okcells'], PROBES[-3]):    # use the rebound name straight away
                 L.parse(f)
+            continue
+        if k == 'stamina':
+            for kk in ('syntax', 'unknownfn', 'hostexc', 'divzero'):
+                L.parse(KIND[kk], solo_outcome(lib, KIND[kk], not debug))
+            text = F.render(KIND['okcells']) + '+SUM(1,ABS(-2),K())'
+            with quiet():
+                for _ in range(STAMINA[0]):
+                    L.h.parse(text)
             continue
         if k == 'sheet':
             def nested(hh, payload):
@@ -350,6 +359,10 @@ def main(tier, replay=None):
     for _ in range(60 if quick else 1500):      # longer random histories
         h = [rng.choice(kinds) for _ in range(rng.randint(5, 30))]
         traces.append(replay_history(lib, len(traces) + 1, h, rng.random() < 0.5))
+    # stamina: a long-lived parser after failed evaluations and tens of thousands of function calls still answers as a fresh one
+    STAMINA[0] = 4000 if quick else 40000
+    for debug in (False, True):
+        traces.append(replay_history(lib, len(traces) + 1, ['stamina'], debug))
     CH = 400
     for k in range(0, len(traces), CH):
         core.validate_hist(run, traces[k:k + CH], 'p%d' % (k // CH), consts, engine='c02')
